@@ -20,6 +20,10 @@ Proof.
   intros H R Hi. destruct (reach_INV c n0 s H R) as (_ & _ & W & _). exact (lines_exact c s W (parents_have_run c n0 s R) i Hi).
 Qed.
 Print Assumptions C20_lines_exact.
+(* ... and every displayed deme is displayed exactly once *)
+Theorem C20_one_line_per_deme c n0 s : 1 <= height c -> reach c n0 s -> NoDup (lines (demes s)).
+Proof. intros H R. destruct (reach_INV c n0 s H R) as (_ & _ & W & _). exact (lines_NoDup c s W). Qed.
+Print Assumptions C20_one_line_per_deme.
 Theorem C20_parents_have_run c n0 s i p : reach c n0 s -> i < length (demes s) -> d_par (dnth i (demes s)) = Some p -> 1 <= d_meta (dnth p (demes s)).
 Proof. intros R Hi P. pose proof (parents_have_run c n0 s R i Hi) as X. rewrite P in X. exact (proj2 X). Qed.
 Print Assumptions C20_parents_have_run.
